@@ -650,7 +650,13 @@ func c13CheckQueries(st *c13State, mgrName string, mgr c13Manager, e phase0.Epoc
 			all = append(all, s.idx)
 		}
 	}
-	sets := [][]phase0.ValidatorIndex{all, {all[0]}, {all[len(all)-1], 99}, {99}, nil}
+	// as many (and one more) indices as there are known validators, only one of them known: an account removed after
+	// the duties were obtained leaves the attester asking for indices the manager no longer has
+	padded := []phase0.ValidatorIndex{all[len(all)-1]}
+	for i := 0; len(padded) < len(all)+1; i++ {
+		padded = append(padded, phase0.ValidatorIndex(90+i))
+	}
+	sets := [][]phase0.ValidatorIndex{all, {all[0]}, {all[len(all)-1], 99}, {99}, nil, padded[:len(all)], padded}
 	for _, set := range sets {
 		restrict := map[phase0.ValidatorIndex]bool{}
 		for _, i := range set {
@@ -862,6 +868,8 @@ func c13VMUnits(tier string) []hx.Unit {
 					}
 				}
 				check("ValidatorsByPubKey", vm.ValidatorsByPubKey(ctx, pk))
+				// the same key may be asked for twice (an account offered by two wallets): every key is still looked up
+				check("ValidatorsByPubKey with the first key repeated", vm.ValidatorsByPubKey(ctx, append([]phase0.BLSPubKey{pk[0], pk[0]}, pk...)))
 				check("ValidatorsByIndex", vm.ValidatorsByIndex(ctx, append(append([]phase0.ValidatorIndex{}, idx...), idxB1)))
 				// a key is reported under one index only: the one of the last delivery
 				if v, both := last[pk[1]]; both {
